@@ -45,7 +45,7 @@ def _case(draw, tier, stratum):
     q = draw(st.sampled_from([0.01, 0.01, None]))
     n = draw(st.integers(1, 3))
     labs = []
-    names = ["Alpha", "Beta plate", "Gamma_3"]
+    names = ["Alpha", "Beta plate ", " Gamma_3"]
     device, focus = stratum
     for i in range(n):
         kind = draw(st.sampled_from(["plate", "trough"])) if i == 0 else draw(st.sampled_from(["plate", "plate", "trough"]))
